@@ -518,7 +518,7 @@ class SymX:
             outs = []
             for s, vals in self.seq([e["a"], e["b"]], st):
                 t = ("bin", e["op"], vals[0], vals[1])
-                if e["op"] in ("Sub", "Mul", "Div", "Rem", "Shl", "Shr") and (e.get("ty") or "") in INT_TYPES:
+                if e["op"] in ("Add", "Sub", "Mul", "Div", "Rem", "Shl", "Shr") and (e.get("ty") or "") in INT_TYPES:
                     s = s.fork()
                     s.log(("call", "<arith>", [("lit", e["op"]), vals[0], vals[1], ("lit", e.get("ty"))], e))
                 outs.append((s, t))
@@ -641,7 +641,7 @@ class SymX:
                 nv = ("bin", e["op"].replace("Assign", ""), vals[0], vals[1])
                 if key is not None:
                     s2.env[key] = nv
-                s2.log(("call", "<assignop>", [("lit", show(e["l"])), ("lit", e["op"]), vals[1]], e))
+                s2.log(("call", "<assignop>", [("lit", show(e["l"])), ("lit", e["op"]), vals[1], ("lit", (unwrap(e["l"]) or {}).get("ty"))], e))
                 outs.append((s2, ("unit",)))
             return outs
         if k == "yield":
